@@ -3,6 +3,7 @@
 //! (STSerial.encode2 + Serial.encode_rows; theorems C11_fits_rows_roundtrip, C11_bytes_roundtrip);
 //! re-serialising the decoded value must reproduce the same bytes.
 use crate::asciix;
+use crate::fitsx;
 use crate::common::*;
 use crate::st::*;
 use moc::deser::ascii::moc2d_from_ascii_ivoa;
@@ -122,6 +123,30 @@ fn fits_checks<T: FitsSt>(rep: &mut Report, orc: &mut Oracle, m: &StMoc, w: u8, 
         continue;
       }
     };
+    // whole file, byte for byte, against Model/FitsCodec.v fits_write_st; the reader beside the model's,
+    // on the file and on truncations of it (fewer rows than declared: the element in progress is lost)
+    {
+      rep.evaluations += 1;
+      rep.count("fits-file-exact");
+      let req = format!("FITSW2 {} {} {} {}", w, m.dt, m.ds, m.wire());
+      let model_file = orc.ask(&req);
+      let hx: String = bytes.iter().map(|b| format!("{:02x}", b)).collect();
+      if model_file != format!("OK {}", hx) {
+        let pos = model_file.bytes().skip(3).zip(hx.bytes()).position(|(a, b)| a != b).unwrap_or(0) / 2;
+        rep.corr_break("the ST FITS file written differs from the byte-level model", &format!("{} # {}", req, shown), &format!("{} bytes, first difference at byte {}", bytes.len(), pos), &format!("{} bytes", model_file.len().saturating_sub(3) / 2), "src/deser/fits rangemoc2d_to_fits_ivoa == Model/FitsCodec.v fits_write_st");
+      }
+      fitsx::compare_reader_fits(rep, orc, &bytes, "st-written", "none");
+      if name == "rangemoc2d_to_fits_ivoa" {
+        let nrows: usize = m.elems.iter().map(|(t, s)| t.len() + s.len()).sum();
+        let row = 2 * (w as usize / 8);
+        for k in [0usize, 1, nrows / 2, nrows.saturating_sub(1)] {
+          if k < nrows {
+            let cut = 5760 + k * row + if k % 2 == 1 { row / 2 } else { 0 };
+            fitsx::compare_reader_fits(rep, orc, &bytes[..cut.min(bytes.len())], "st-truncated", &format!("cut after {} rows", k));
+          }
+        }
+      }
+    }
     match data_part(&bytes) {
       None => rep.violation("emitted ST FITS is structurally invalid", &shown, &format!("{} bytes", bytes.len()), "", "C11_declared_rows"),
       Some((n1, n2, data, total)) => {
